@@ -489,3 +489,17 @@ func verifTimerWithin(t *time.Timer, exp uint32) bool { return verifTimerArmed(t
 func verifCommitCount(db *sql.DB) int                 { return -1 }
 
 func verifFaults(db *sql.DB, budget int) {}
+
+func verifRegisterStore(db *sql.DB, dsnPath string) {}
+func verifStoreExists(dsnPath string) bool {
+	_, err := os.Stat(dsnPath)
+	return err == nil
+}
+func verifDBClosed(db *sql.DB) bool { return db == nil || db.Ping() != nil }
+func verifFSSet(path string, exists bool) {
+	if exists {
+		os.MkdirAll(path, 0o700)
+	} else {
+		os.RemoveAll(path)
+	}
+}
